@@ -53,6 +53,9 @@ type metricStore struct {
 // newMetricStore returns a new mStoreINTF.
 func newMetricStore() mStoreINTF {
 	var ms metricStore
+	// a new store is active: gc(runs in background after metadata flush) must not remove the store
+	// which is just created by writing goroutine and not accessed yet.
+	ms.accessTime = fasttime.UnixMilliseconds()
 	return &ms
 }
 
